@@ -22,6 +22,7 @@ func runC11(c *Ctx) {
 	c.Rule("C11-R4", "guarded state touched by workers (C14-R4 tables)", 10)
 	c.Rule("C11-R5", "no map-order leaks in console/JSON output", 3)
 	defer c11WorkerCount(c)
+	defer c11PackageSlicesNotAppended(c, "C11-R3")
 
 	cmd := p.Pkg("cmd/pint")
 	if cmd == nil {
@@ -786,4 +787,90 @@ func c11WorkerCount(c *Ctx) {
 	})
 	c.Check(n == 1, "C11-R2", "checkRules:one scanWorker start site", cr.Decl.Pos(), "one", itoa(n)+" call sites of scanWorker")
 	_ = p
+}
+
+// c11PackageSlicesNotAppended: `append(G, x)` on a package-level slice G is
+// only harmless when G has no spare capacity: then every call copies. G's
+// initialiser must therefore be a composite literal (len == cap). A slice
+// expression or the result of a function (strings.SplitAfter(...)[:4]) can have
+// spare capacity, and concurrent workers then write their element into the
+// same backing slot — one worker parses another rule's template text.
+func c11PackageSlicesNotAppended(c *Ctx, rule string) {
+	p := c.P
+	n := 0
+	for _, fi := range p.AllFuncs() {
+		if fi.Decl.Body == nil || p.IsTestFile(fi.Decl.Pos()) {
+			continue
+		}
+		info := fi.Pkg.TypesInfo
+		ast.Inspect(fi.Decl.Body, func(nd ast.Node) bool {
+			call, ok := nd.(*ast.CallExpr)
+			if !ok || len(call.Args) < 2 {
+				return true
+			}
+			id, ok := call.Fun.(*ast.Ident)
+			if !ok || id.Name != "append" {
+				return true
+			}
+			if _, isBuiltin := info.Uses[id].(*types.Builtin); !isBuiltin {
+				return true
+			}
+			g, ok := ast.Unparen(call.Args[0]).(*ast.Ident)
+			if !ok {
+				return true
+			}
+			v, ok := info.Uses[g].(*types.Var)
+			if !ok || v.Pkg() == nil || v.Parent() != v.Pkg().Scope() {
+				return true
+			}
+			// result stored back into G itself (initialisation-time growth) is a different matter: R3
+			if as, isAs := parentOf(fi, call).(*ast.AssignStmt); isAs && len(as.Lhs) == 1 && isObj(info, as.Lhs[0], v) {
+				return true
+			}
+			n++
+			init := packageVarInit(p, v)
+			okInit := false
+			switch x := ast.Unparen(init).(type) {
+			case *ast.CompositeLit:
+				okInit = true
+			case *ast.CallExpr:
+				if fn := Callee(info, x); fn != nil && fn.Pkg() != nil && fn.Pkg().Path() == "slices" && (fn.Name() == "Clip" || fn.Name() == "Clone") {
+					okInit = true
+				}
+			}
+			c.Check(okInit, rule, fi.Name+":append to package-level "+v.Name()+" cannot write into shared spare capacity", call.Pos(), "initialised by a composite literal (len == cap)",
+				"`append("+v.Name()+", …)` is evaluated by concurrent workers and "+v.Name()+" is initialised by `"+exprStr(init)+"`, which can leave spare capacity: the appended element lands in the same backing slot for every caller, so one worker can parse or report another rule's text")
+			return true
+		})
+	}
+	c.Ok(rule, "appends to package-level slices enumerated", token.NoPos, itoa(n)+" site(s)")
+}
+
+func parentOf(fi *FuncInfo, n ast.Node) ast.Node {
+	return parentMap(fi.Decl.Body)[n]
+}
+
+// packageVarInit returns the initialiser expression of a package-level variable.
+func packageVarInit(p *Prog, v *types.Var) ast.Expr {
+	pkg := p.ByPath[v.Pkg().Path()]
+	if pkg == nil {
+		return &ast.BadExpr{}
+	}
+	for _, f := range pkg.Syntax {
+		for _, d := range f.Decls {
+			gd, ok := d.(*ast.GenDecl)
+			if !ok || gd.Tok != token.VAR {
+				continue
+			}
+			for _, sp := range gd.Specs {
+				vs := sp.(*ast.ValueSpec)
+				for i, nm := range vs.Names {
+					if pkg.TypesInfo.Defs[nm] == types.Object(v) && i < len(vs.Values) {
+						return vs.Values[i]
+					}
+				}
+			}
+		}
+	}
+	return &ast.BadExpr{}
 }
